@@ -12,7 +12,7 @@
 From Coq Require Import List NArith ZArith Bool Permutation.
 From RPFT Require Import Base.Sexp Base.PyStr Base.Result Gen.Tables Cell.Cell Row.Ty Row.Layout Row.RowParse
   Row.RowUnparse Row.FlowRow Row.RowFacts Row.TextFacts Row.RoundTrip Row.RoundTripFacts Row.RoundTripExamples
-  Row.RefuteFacts Row.CtxRoundTripFacts Row.FlowRowFacts Row.OrderFacts.
+  Row.RefuteFacts Row.CtxRoundTripFacts Row.FlowRowFacts Row.OrderFacts Row.Session Row.SessionFacts Row.SessionExamples.
 Import ListNotations.
 
 (* the regenerated constants satisfy what the proofs need *)
@@ -147,16 +147,159 @@ Theorem C07_all_default_in_list_refuted :
 Proof. exact all_default_in_list_refuted. Qed.
 Print Assumptions C07_all_default_in_list_refuted.
 
-Theorem C07_packed_blank_refuted :
-  row_dom r2_ty r2_v [[115%N]] = false
-  /\ unparse_row r2_ty r2_v [[115%N]] [] = Ok r2_cells
-  /\ parse_row {| rm_ty := r2_ty; rm_ctx := None |} r2_cells = Ok r2_back
+(* finding packed-model-blank-value-under-nonblank-default: DECIDED by the probed constant join_keeps_blank_last
+   (does join_from_lists keep an empty last element by a trailing separator?).  On the repaired tree the instance
+   is inside the proved domain (C07_row_roundtrip covers it), is written a;;| and comes back. *)
+Theorem C07_packed_blank_decided :
+  if join_keeps_blank_last
+  then row_dom r2_ty r2_v [[115%N]] = true
+       /\ unparse_row r2_ty r2_v [[115%N]] [] = Ok r2_cells_kept
+       /\ parse_row {| rm_ty := r2_ty; rm_ctx := None |} r2_cells_kept = Ok r2_v
+  else row_dom r2_ty r2_v [[115%N]] = false
+       /\ unparse_row r2_ty r2_v [[115%N]] [] = Ok r2_cells
+       /\ parse_row {| rm_ty := r2_ty; rm_ctx := None |} r2_cells = Ok r2_back
+       /\ r2_back <> r2_v.
+Proof. exact packed_blank_decided. Qed.
+Print Assumptions C07_packed_blank_decided.
+
+(* the reader is the same on either tree *)
+Theorem C07_packed_blank_reader :
+  parse_row {| rm_ty := r2_ty; rm_ctx := None |} r2_cells = Ok r2_back
+  /\ parse_row {| rm_ty := r2_ty; rm_ctx := None |} r2_cells_kept = Ok r2_v
   /\ r2_back <> r2_v.
-Proof. exact packed_blank_refuted. Qed.
-Print Assumptions C07_packed_blank_refuted.
+Proof. exact packed_blank_reader. Qed.
+Print Assumptions C07_packed_blank_reader.
 
 Theorem C07_packing_limit_refuted :
   row_dom r4_ty r4_v [[108%N]] = false
   /\ unparse_row r4_ty r4_v [[108%N]] [] = Err EJoin.
 Proof. exact packing_limit_refuted. Qed.
 Print Assumptions C07_packing_limit_refuted.
+
+(* 5. the file leg, one cell at a time: RowDataSheet.export(filename, "xlsx") + XLSXSheetReader (Io/XlsxCell.v, tied to
+      the code by the probe xlsx_export_text_cells and by the harness's cell stream, engine 107 fn 8).
+      Finding xlsx-cell-starting-with-equals-sign: the full statement is decided by the probe. *)
+From RPFT Require Import Io.XlsxCell Io.XlsxCellFacts.
+
+Theorem C07_xlsx_text_survives_decided :
+  if xlsx_export_text_cells
+  then forall s, xlsx_cell_roundtrip s = s
+  else ~ (forall s, xlsx_cell_roundtrip s = s).
+Proof. exact xlsx_text_survives_decided. Qed.
+Print Assumptions C07_xlsx_text_survives_decided.
+
+(* what comes back, on either tree: everything but a text "=…" of two or more characters *)
+Theorem C07_xlsx_cell_roundtrip_spec : forall s,
+  xlsx_cell_roundtrip s = if is_formula_text s && negb xlsx_export_text_cells then [] else s.
+Proof. exact xlsx_cell_roundtrip_spec. Qed.
+Print Assumptions C07_xlsx_cell_roundtrip_spec.
+
+Theorem C07_xlsx_formula_witness :
+  is_formula_text w_formula_text = true
+  /\ xlsx_cell_roundtrip w_formula_text = (if xlsx_export_text_cells then w_formula_text else [])
+  /\ xlsx_cell_roundtrip [c_equals] = [c_equals].
+Proof. exact xlsx_formula_witness. Qed.
+Print Assumptions C07_xlsx_formula_witness.
+
+Theorem C07_xlsx_row_survives_repaired :
+  xlsx_export_text_cells = true -> forall cells : list str, map xlsx_cell_roundtrip cells = cells.
+Proof. exact xlsx_row_survives_repaired. Qed.
+Print Assumptions C07_xlsx_row_survives_repaired.
+
+(* 5. sessions (Row/Session.v): a FAMILY of classes — some derived from an earlier one the way pydantic collects the
+      fields of a subclass — and a SEQUENCE of operations on the long-lived parsers of these classes, run through
+      the state machine [run_session] that keeps what RowParser keeps between two calls (its two registers).
+      The outcome of every operation is the pure function of the class description and the arguments: nothing an
+      earlier operation did (on the same class, on a base class, on a sibling, a failed call, a new parser) enters.
+      The harness runs the SAME sessions through the extracted [run_session] and through ONE long-lived set of
+      implementation classes / RowParsers and compares every step. *)
+Theorem C07_session_history_independent : forall fam ops,
+  run_session fam ops = map (op_result (classes fam)) ops.
+Proof. exact session_history_independent. Qed.
+Print Assumptions C07_session_history_independent.
+
+(* ... in particular: an operation in the middle of a session yields what it yields as the only operation *)
+Theorem C07_session_same_as_fresh : forall fam before o after,
+  nth_error (run_session fam (before ++ o :: after)) (length before) = nth_error (run_session fam [o]) 0.
+Proof. exact session_same_as_fresh. Qed.
+Print Assumptions C07_session_same_as_fresh.
+
+(* ... whatever the registers hold when the session starts *)
+Theorem C07_session_initial_state_irrelevant : forall cls ops st,
+  run_from cls st ops = map (op_result cls) ops.
+Proof. exact session_initial_state_irrelevant. Qed.
+Print Assumptions C07_session_initial_state_irrelevant.
+
+(* the round trip at ANY point of ANY session, for ANY class of the family (derived ones included) *)
+Theorem C07_session_roundtrip : forall fam before k v targets after root,
+  class_of (classes fam) k = Some root ->
+  row_dom root v targets = true ->
+  nth_error (run_session fam (before ++ OpRound k v targets :: after)) (length before) = Some (RValue (Ok v)).
+Proof. exact session_roundtrip. Qed.
+Print Assumptions C07_session_roundtrip.
+
+(* a derived class is judged against ITS OWN declarations: a field its body declares has the type and default
+   written there whatever the base class says, any other field is the base's; class k of a family depends on the
+   classes BEFORE it only *)
+Theorem C07_derived_class_own_default : forall fam k p over h g pfs ph pg n t d,
+  nth_error fam k = Some (DDerive p over h g) ->
+  class_of (classes fam) p = Some (TModel pfs ph pg) ->
+  (p < k)%nat ->
+  NoDup (map f_name over) -> In (n, (t, d)) over ->
+  exists fs h' g', class_of (classes fam) k = Some (TModel fs h' g')
+                   /\ field_lookup fd fs n = Some (t, d)
+                   /\ (forall m, ~ In m (map f_name over) -> field_lookup fd fs m = field_lookup fd pfs m).
+Proof. exact derived_class_own_default. Qed.
+Print Assumptions C07_derived_class_own_default.
+
+(* non-vacuity: Question / FollowUp(Question) with other defaults; FollowUp(attempts=3, required=True, weight=1.0)
+   — the BASE class's defaults — after a Question was written: the three cells are written, the row reads back *)
+Example C07_session_nonvacuous_classes : classes ex_family = [Some ex_question; Some ex_followup].
+Proof. exact ex_classes. Qed.
+Print Assumptions C07_session_nonvacuous_classes.
+
+Example C07_session_roundtrip_nonvacuous :
+  class_of (classes ex_family) 1 = Some ex_followup /\ row_dom ex_followup ex_f2 [] = true.
+Proof. exact ex_followup_hyps. Qed.
+Print Assumptions C07_session_roundtrip_nonvacuous.
+
+Example C07_session_nonvacuous_run :
+  run_session ex_family ex_ops = [RValue (Ok ex_q1); RCells (Ok ex_f2_cells); RDone; RValue (Ok ex_f2)].
+Proof. exact ex_session_run. Qed.
+Print Assumptions C07_session_nonvacuous_run.
+
+(* 6. the file leg, which headers become columns: RowDataSheet._get_headers (Io/SheetHeaders.v, tied to the code by the
+      probe sheet_keeps_single_columns and by the harness's header stream, engine 107 fn 11; the ORDER of the columns is
+      not modelled).  Finding single-column-sheet-export-crashes: the full statement is decided by the probe. *)
+From RPFT Require Import Io.SheetHeaders Io.SheetHeadersFacts.
+
+Theorem C07_sheet_headers_complete_decided :
+  if sheet_keeps_single_columns
+  then forall rows r h, In r rows -> In h r -> In h (sheet_header_set rows)
+  else ~ (forall rows r h, In r rows -> In h r -> In h (sheet_header_set rows)).
+Proof. exact sheet_headers_complete_decided. Qed.
+Print Assumptions C07_sheet_headers_complete_decided.
+
+(* either tree: columns are headers some row writes, no column twice, and rows with two or more columns keep theirs *)
+Theorem C07_sheet_headers_sound : forall rows h, In h (sheet_header_set rows) -> exists r, In r rows /\ In h r.
+Proof. exact sheet_headers_sound. Qed.
+Print Assumptions C07_sheet_headers_sound.
+
+Theorem C07_sheet_headers_nodup : forall rows, NoDup (sheet_header_set rows).
+Proof. exact sheet_headers_nodup. Qed.
+Print Assumptions C07_sheet_headers_nodup.
+
+Theorem C07_sheet_headers_wide_rows : forall rows r h,
+  In r rows -> (2 <= length r)%nat -> In h r -> In h (sheet_header_set rows).
+Proof. exact sheet_headers_wide_rows. Qed.
+Print Assumptions C07_sheet_headers_wide_rows.
+
+(* the two shapes of the finding: no column at all (TypeError in convert_to_tablib) / the cell of a one-column row
+   next to a wider row is not in the sheet *)
+Theorem C07_sheet_headers_witness :
+  sheet_header_set [[w_e1]; [w_e1]] = (if sheet_keeps_single_columns then [w_e1] else [])
+  /\ sheet_header_set [[w_a; w_b]; [w_c]] = (if sheet_keeps_single_columns then [w_a; w_b; w_c] else [w_a; w_b])
+  /\ sheet_cell (sheet_header_set [[w_a; w_b]; [w_c]]) [(w_c, [118%N])] w_c
+     = (if sheet_keeps_single_columns then Some [118%N] else None).
+Proof. exact sheet_headers_witness. Qed.
+Print Assumptions C07_sheet_headers_witness.
